@@ -1,5 +1,7 @@
 import Fpdec.Kernels.DecUnops
 import Fpdec.Kernels.Log
+import Fpdec.Kernels.Magn
+import Fpdec.Kernels.Cmp
 import Fpdec.Kernels.Unops
 import Fpdec.Lemmas.Unary
 import Fpdec.Props.C15_Sites
@@ -82,5 +84,22 @@ theorem kernel_decimal_floor (prof : Profile) (d : Dec) : Gen.K.decimal_floor pr
 theorem kernel_decimal_ceil (prof : Profile) (d : Dec) : Gen.K.decimal_ceil prof d = ceil prof d := Kernels.decimal_ceil_eq prof d
 theorem kernel_decimal_trunc (prof : Profile) (d : Dec) : Gen.K.decimal_trunc prof d = trunc d := Kernels.decimal_trunc_eq prof d
 theorem kernel_decimal_fract (prof : Profile) (d : Dec) : Gen.K.decimal_fract prof d = fract d := Kernels.decimal_fract_eq prof d
+
+/-- `i128_magnitude`, `Decimal::magnitude`, `Decimal::new_raw` and the sign / zero / one predicates, as translated on this run -/
+theorem kernel_i128_magnitude (prof : Profile) (i : Int) (h : I128_MIN ≤ i ∧ i ≤ I128_MAX) :
+    Gen.K.i128_magnitude prof i = .ok (i128Magnitude i) := Kernels.i128_magnitude_eq prof i h
+theorem kernel_decimal_magnitude (prof : Profile) (d : Dec) (h : I128_MIN ≤ d.coeff ∧ d.coeff ≤ I128_MAX) :
+    Gen.K.decimal_magnitude prof d = magnitude prof d := Kernels.decimal_magnitude_eq prof d h
+theorem kernel_decimal_new_raw (prof : Profile) (c : Int) (n : Nat) :
+    Gen.K.decimal_new_raw prof c n = (if prof.da = true ∧ ¬ n ≤ 18 then .panic .assert else .ok ⟨c, n⟩) :=
+  Kernels.decimal_new_raw_eq prof c n
+theorem kernel_decimal_eq_zero (prof : Profile) (d : Dec) : Gen.K.decimal_eq_zero prof d = .ok (eqZero d) :=
+  Kernels.decimal_eq_zero_eq prof d
+theorem kernel_decimal_eq_one (prof : Profile) (d : Dec) : Gen.K.decimal_eq_one prof d = eqOne d :=
+  Kernels.decimal_eq_one_eq prof d
+theorem kernel_decimal_is_negative (prof : Profile) (d : Dec) : Gen.K.decimal_is_negative prof d = .ok (isNegative d) :=
+  Kernels.decimal_is_negative_eq prof d
+theorem kernel_decimal_is_positive (prof : Profile) (d : Dec) : Gen.K.decimal_is_positive prof d = .ok (isPositive d) :=
+  Kernels.decimal_is_positive_eq prof d
 
 end Fpdec.Props.C15
